@@ -68,6 +68,11 @@ package main
 // Which outer variables a loop carries, which parameters a function mutates and whether it can abort are found by
 // translating once and looking at what was rebound (no separate analysis that could disagree with the translation).
 //
+// JOIN POINTS: when two branches of an `if` of the function's top level fall through to a continuation of at least
+// qJoinLines lines, and their environments agree (same variables, links, moved / consumed marks), the continuation is
+// emitted ONCE as a definition `<f>.kN` of the variables it mentions and both branches call it (otherwise it is
+// copied).  `clear(s[len(s):cap(s)])` zeroes the array beyond the visible elements: no effect on a list.
+//
 // Anything outside the subset makes the function "untranslatable": `def f : Untranslatable := ⟨reason⟩`, listed in
 // `untranslatedFunctions`; its theorems stop compiling.
 
